@@ -22,8 +22,8 @@ from harness.pool import pmap
 PROP = "C01"
 ROUTES = ["ugrid", "topology", "mpas", "mpas_dual", "scrip", "exodus", "esmf", "geos", "icon", "geo", "verts"]
 INVS = ["MeshOK", "RoundTrip", "ExpectedStandard", "PermOK", "CarriedConsistent", "ExtrasRoundTrip", "EmitMesh", "EmitCase"]
-QUICK_MESHES = [1, 2, 3, 4, 5, 6, 8, 18]
-ALL_MESHES = list(range(1, 19))
+QUICK_MESHES = [1, 2, 3, 4, 5, 6, 8, 14, 18, 19, 20]
+ALL_MESHES = list(range(1, 22))
 MESHFILES = os.path.join(os.environ.get("VERIF_REPO", "/repo"), "test", "meshfiles")
 
 # (id, relative path, kwargs, max tier): non-empty sample files
